@@ -432,7 +432,7 @@ func buildStruct(v V, env *Env) St {
 }
 
 // FnIDs lists the fixed host functions available to data maps.
-var FnIDs = []string{"id", "err", "sum", "cat", "nums", "strs", "ctx", "noret", "one", "three", "time", "mapf", "panic", "retint", "retf32", "niladic", "anys", "retnildec", "retnilptr"}
+var FnIDs = []string{"id", "err", "sum", "cat", "nums", "strs", "ctx", "noret", "one", "three", "time", "mapf", "panic", "retint", "retf32", "niladic", "anys", "retnildec", "retnilptr", "curry"}
 
 func record(env *Env, fn string, args ...interface{}) {
 	if env != nil && env.Log != nil {
@@ -492,6 +492,12 @@ func buildFn(id string, env *Env) interface{} {
 		return func() (interface{}, error) { record(env, id); return nil, nil }
 	case "anys":
 		return func(xs ...interface{}) (int, error) { record(env, id, len(xs)); return len(xs), nil }
+	case "curry":
+		// returns a function (a value a formula can hold, pass on - and, were computed callees supported, call)
+		return func(a interface{}) (interface{}, error) {
+			record(env, id, a)
+			return func(b interface{}) (interface{}, error) { return []interface{}{a, b}, nil }, nil
+		}
 	}
 	return func() (interface{}, error) { return nil, fmt.Errorf("unknown host function %s", id) }
 }
